@@ -213,6 +213,92 @@ def translate_gosper(csrc):
     return out
 
 
+def c_macro_expr(text, env):
+    """nested CHECK_BIT / SET_BIT / UNSET_BIT calls over identifiers -> Lean term"""
+    text = text.strip()
+    m = re.match(r"(CHECK_BIT|SET_BIT|UNSET_BIT)\((.*)\)$", text)
+    if m:
+        inner = m.group(2)
+        depth, cut = 0, None
+        for k, ch in enumerate(inner):
+            if ch == "(":
+                depth += 1
+            elif ch == ")":
+                depth -= 1
+            elif ch == "," and depth == 0:
+                cut = k
+        if cut is None:
+            raise SyntaxError(f"macro call {text!r}")
+        a, b = inner[:cut], inner[cut + 1:].strip()
+        if env.get(b) != "nat":
+            raise SyntaxError(f"position {b!r} is not an int parameter")
+        fn = {"CHECK_BIT": "check_bit", "SET_BIT": "set_bit", "UNSET_BIT": "unset_bit"}[m.group(1)]
+        return f"({fn} {c_macro_expr(a, env)} {b})"
+    if re.match(r"\w+$", text) and env.get(text) == "bv":
+        return text
+    raise SyntaxError(f"expression {text!r}")
+
+
+def c_cond(text, env):
+    parts = [t.strip() for t in text.split("&&")]
+    out = []
+    for t in parts:
+        neg = t.startswith("!")
+        if neg:
+            t = t[1:].strip()
+        m = re.match(r"(\w+)\s*==\s*(\w+)$", t)
+        if m and env.get(m.group(1)) == "nat" and env.get(m.group(2)) == "nat":
+            term = f"decide ({m.group(1)} = {m.group(2)})"
+        elif t.startswith("CHECK_BIT("):
+            term = f"(!({c_macro_expr(t, env)} == 0#64))"      # a uint64_t in a boolean context
+        else:
+            raise SyntaxError(f"condition term {t!r}")
+        out.append(f"(!{term})" if neg else term)
+    return "(" + " && ".join(out) + ")"
+
+
+def translate_build_mapping(src):
+    """the body of the loop over the strings in build_mapping_strings (fci_graph.c): which table entry, if any, one
+    string contributes to the map (iorb <- jorb); `string_to_index(x, Z_matrix, norb)` is rendered as x (the
+    address table is the subject of C05_address)"""
+    m = re.search(r"void\s+build_mapping_strings\s*\(", src)
+    if not m:
+        raise SyntaxError("build_mapping_strings not found")
+    i = src.index("{", m.end())
+    depth, j = 1, i + 1
+    while depth:
+        depth += {"{": 1, "}": -1}.get(src[j], 0)
+        j += 1
+    body = re.sub(r"\s+", " ", src[i:j])
+    pat = (r"uint64_t cstring = strings\[stringno\]; "
+           r"if \((?P<c1>.*?)\) \{ if \(!count\) \{ "
+           r"\(\*cmap\)\[0\] = string_to_index\((?P<e0>.*?), Z_matrix, norb\); "
+           r"\(\*cmap\)\[1\] = string_to_index\( ?(?P<e1>.*?), Z_matrix, norb\); "
+           r"\(\*cmap\)\[2\] = (?P<fn>\w+)\((?P<args>[^()]*)\) % 2 == 0 \? 1 : -1; \+\+cmap; \} \+\+counter; \} "
+           r"else if \((?P<c2>.*?)\) \{ if \(!count\) \{ "
+           r"const int cid = string_to_index\((?P<e3>.*?), Z_matrix, norb\); "
+           r"\(\*cmap\)\[0\] = cid; \(\*cmap\)\[1\] = cid; \(\*cmap\)\[2\] = 1; \+\+cmap; \} \+\+counter; \} \}")
+    mm = re.search(pat, body)
+    if not mm:
+        raise SyntaxError("the loop body of build_mapping_strings no longer has the reviewed shape")
+    if not re.search(r"const int iorb = exc_deexc\[mapno\]\[0\]; const int jorb = exc_deexc\[mapno\]\[1\];", body):
+        raise SyntaxError("iorb / jorb are no longer the two int entries of exc_deexc[mapno]")
+    env = {"cstring": "bv", "iorb": "nat", "jorb": "nat"}
+    if mm.group("fn") != "count_bits_between":
+        raise SyntaxError("sign is no longer taken from count_bits_between")
+    args = [a.strip() for a in mm.group("args").split(",")]
+    if len(args) != 3 or env.get(args[0]) != "bv" or env.get(args[1]) != "nat" or env.get(args[2]) != "nat":
+        raise SyntaxError("arguments of count_bits_between")
+    e0, e1, e3 = (c_macro_expr(mm.group(k), env) for k in ("e0", "e1", "e3"))
+    return ("/-- `fci_graph.c`, `build_mapping_strings`: the entry one string contributes to the map `iorb <- jorb`\n"
+            "    (`none` = nothing); `string_to_index(x, …)` is rendered as `x` -/\n"
+            "def build_mapping_entry (cstring : BitVec 64) (iorb jorb : Nat) : Option (BitVec 64 × BitVec 64 × Int) :=\n"
+            f"  if {c_cond(mm.group('c1'), env)} then\n"
+            f"    some ({e0}, {e1}, if count_bits_between {' '.join(args)} % 2 = 0 then (1 : Int) else -1)\n"
+            f"  else if {c_cond(mm.group('c2'), env)} then some ({e3}, {e3}, (1 : Int))\n"
+            "  else none\n")
+
+
 def main():
     h = open(os.path.join(REPO, "src/fqe/lib/bitstring.h")).read()
     c = open(os.path.join(REPO, "src/fqe/lib/bitstring.c")).read()
@@ -231,6 +317,7 @@ def main():
     parts.append(translate_macro(h, "SET_BIT", "set_bit"))
     parts.append(translate_macro(h, "UNSET_BIT", "unset_bit"))
     parts.append(translate_gosper(c))
+    parts.append(translate_build_mapping(open(os.path.join(REPO, "src/fqe/lib/fci_graph.c")).read()))
     parts.append("end GenC\n")
     text = "\n".join(parts)
     old = open(OUT).read() if os.path.exists(OUT) else None
